@@ -29,3 +29,4 @@ done
 /venv/bin/python tools/py2flow.py --repo /repo --out lean/PGM/Generated >/dev/null 2>&1
 /venv/bin/python tools/py2dom.py --repo /repo --out lean/PGM/Generated >/dev/null 2>&1
 /venv/bin/python tools/py2cv.py --repo /repo --out lean/PGM/Generated >/dev/null 2>&1
+/venv/bin/python tools/py2factor.py --repo /repo --out lean/PGM/Generated >/dev/null 2>&1
